@@ -54,6 +54,11 @@ Spans(n, k) ==
   ELSE IF k <= 0 \/ k >= n THEN <<[first |-> 0, count |-> n]>>
   ELSE [i \in 1 .. ((n + k - 1) \div k) |-> [first |-> (i - 1) * k, count |-> Min2(k, n - (i - 1) * k)]]
 
+(* Integer widths.  A width has to hold the largest VALUE stored with it: for the handles of a chunk   *)
+(* that is the largest handle (bounded by the COUNT of the referenced kind: vertices, halfedges =     *)
+(* 2 * edges, halffaces = 2 * faces - not by the count of edges or faces), for the valences of a      *)
+(* variable-valence chunk it is the largest valence itself (255 fits one byte, a valence of 256 does  *)
+(* not, although "256 entities" have handles 0..255 that do).  Encode chooses both independently.     *)
 MinEnc(maxv) == IF maxv <= 255 THEN 1 ELSE IF maxv <= 65535 THEN 2 ELSE 4
 SeqMax(s) == IF s = <<>> THEN 0 ELSE CHOOSE x \in {s[i] : i \in DOMAIN s} : \A i \in DOMAIN s : s[i] <= x
 SeqMin(s) == IF s = <<>> THEN 0 ELSE CHOOSE x \in {s[i] : i \in DOMAIN s} : \A i \in DOMAIN s : s[i] >= x
